@@ -47,10 +47,11 @@ type hWorld struct {
 	nUpdate  int
 	nDeact   int
 
-	readHook   func(n int, addr string, content []byte, found bool) ([]byte, error)
-	reads      int
-	nontrivial bool
-	samples    []string
+	foreignDelta interface{} // a valid delta taken from a create request that is not part of the batch
+	readHook     func(n int, addr string, content []byte, found bool) ([]byte, error)
+	reads        int
+	nontrivial   bool
+	samples      []string
 }
 
 func (w *hWorld) fail(oracle, detail string) {
@@ -109,6 +110,13 @@ func runWorldH(rc *RunCtx) *RunResult {
 		parsed, err := parser.ParseCreateOperation(createReq, true)
 		if err != nil {
 			panic(err)
+		}
+
+		if w.foreignDelta == nil {
+			var cr map[string]interface{}
+			if json.Unmarshal(createReq, &cr) == nil {
+				w.foreignDelta = cr["delta"]
+			}
 		}
 
 		typ := operation.TypeCreate
@@ -922,6 +930,13 @@ func (w *hWorld) structural(orig *hFileSet) {
 			}
 
 			victim["didSuffix"] = others[T.Draw(len(others), "retarget.to")]
+		}},
+		{"deactivate-only-with-foreign-chunk", fs.provIndex == nil && w.nDeact > 0 && w.foreignDelta != nil, func() {
+			// a core index holding only deactivates that nevertheless references a provisional index whose chunk
+			// file carries a (valid) delta: zero create/recover/update operations versus one delta
+			fs.ch = map[string]interface{}{"deltas": []interface{}{deepCopyJSON(w.foreignDelta)}}
+			fs.provIndex = map[string]interface{}{"chunks": []interface{}{map[string]interface{}{"chunkFileUri": ""}}}
+			fs.core["provisionalIndexFileUri"] = ""
 		}},
 		{"count-too-high", true, func() { fs.count++ }},
 		{"count-too-low", orig.count > 1, func() { fs.count-- }},
